@@ -215,6 +215,38 @@ check('C10', 'specs/BlobExchange.tla + specs/MCBlobExchange.tla + specs/BlobExch
       'KNOWN FINDING (listed, not repaired): a wrong announced length sticks on a blob whose length was unknown.',
       'TLC exhaustive protocol model with negative control + TLC-judged runs of the real client and server protocols', 'DESIGN.md 5/C10')
 
+check('C15', 'specs/Script.tla + harness/c15_script.py',
+      'TLC enumerates the bounded case space of Script.tla and checks the laws on the model with reachability witnesses: every push length around the '
+      '75/76/255/256/65535/65536 boundaries and 70000, every template x value lengths at those boundaries x lock heights of every byte width up to 2^32-1, '
+      'all token sequences up to length 4 over the alphabet of the parse mode, every sequence within 1 (thorough: 2) token edits of an instance of each of '
+      'the 13 output, 4 input and the time-lock template, and all byte strings up to 3 (4) over a 22-byte alphabet plus every one-byte edit of a small '
+      'instance of each output template. Laws: the push prefix is minimal and reads back; generate-then-parse gives the same template and values (incl. the '
+      'inner time-lock script and a minimal script-number height); encode/decode of token sequences is inverse; at most one output template matches and it '
+      'is the one whose shape the token kinds have; a script starting with a claim, support or update opcode is never a payment class, and conversely. '
+      'Every TLC state (188 k quick, 1.88 M thorough) is run through the real Template.generate, the public constructors, OutputScript/InputScript(source) '
+      '.template/.values/.tokens, the is_* predicates of OutputScript and Output, and Database.tx_to_row/txo_to_row; seeded random byte strings are judged '
+      'by a Python transcription of the specification that must agree with TLC on every emitted case.',
+      'Payload bytes are opaque; minimal push = shortest of direct/PUSHDATA1/2/4; any parse exception counts as classification none; where an expectation '
+      'rests on a named truncation quirk of the tokeniser the code may equally refuse the script; multi-signature redeem templates are evaluated without '
+      'judgement (outside the claim); sequences longer than 4 tokens only within 1-2 edits of template instances and by random strings.',
+      'case-analytic TLA+ spec (tokeniser, template table, matcher, generator), TLC-enumerated cases replayed into the real generator/parser/predicates',
+      'DESIGN.md 5/C15')
+
+check('C17', 'specs/Bencode.tla + specs/DhtIngress.tla + harness/c17_dhtwire.py',
+      'TLC enumerates every protocol message shape of Bencode.tla (4 requests, contact lists 0..16, findValue responses, errors with 0..999 bytes of text, '
+      'compact addresses) and checks decode(encode(v)) = v with a reference decoder written from the bencode grammar inside the specification; the real '
+      'encoders and decoders must reproduce those bytes and values, and the transcribed reference decoder must read the real bytes identically. '
+      'DhtIngress.tla generates inputs structurally from 8 valid datagrams (every truncation, 1-3 position edits in 10 classes, type confusion per field, '
+      'missing entries, oversized fields, nesting to depth 5000, all tiny strings), classifies each with the reference decoder and typing rules, and checks '
+      'Total, GarbageDropped, FailureRecorded, StillServing and ten classification laws. Every case (27 k quick, 277 k thorough) is one call of the real '
+      'KademliaProtocol.datagram_received on a fresh node under a watchdog: routing table, data store, failure record, replies and the pending request are '
+      'compared with the specified state, and a follow-up ping must still be answered. Seeded random strings up to 65507 bytes are added on top.',
+      'Payload bytes are opaque (ingress payloads avoid bencode structural bytes); typing is at datagram level (request-argument validation belongs to the RPC '
+      'layer: compared and counted as drift, not judged); canonical-form deviations judged for totality only; deeply nested = deeper than 100; failure '
+      'recording observed by wrapping PeerManager.report_failure; 3-position edits are windowed.',
+      'case-analytic TLA+ specs with an in-spec reference bencode decoder; TLC-generated structural garbage replayed into the real datagram_received under a watchdog',
+      'DESIGN.md 5/C17')
+
 NOT_YET = 'check not built yet in this round (design in DESIGN.md section 5); will be claimed once its driver exists'
 ALL = [f'C{i:02d}' for i in range(1, 21)]
 
